@@ -21,6 +21,7 @@ type pathRecord struct {
 	inputs  []varRec
 	outcome string // pass | fail:<label> | panic
 	covers  []string
+	obs     []string
 }
 
 type HarnessResult struct {
@@ -248,6 +249,7 @@ func (in *Interp) runPath(fn *ssa.Function, item workItem, snap *snapshot) (rec 
 	in.covers = map[string]bool{}
 	in.knownSeen = map[string]bool{}
 	in.sharedW = nil
+	in.observes = nil
 	in.ckEpoch = 0
 	in.permute = false
 	in.unwind = 10000
@@ -301,6 +303,9 @@ func (in *Interp) runPath(fn *ssa.Function, item workItem, snap *snapshot) (rec 
 		r.covers = append(r.covers, k)
 	}
 	sort.Strings(r.covers)
+	for _, o := range in.observes {
+		r.obs = append(r.obs, in.renderObs(o, in.ev))
+	}
 	return r
 }
 
